@@ -118,3 +118,64 @@ def size_bits(key, vals, occs):
         ncoef = sum(1 for o in occs if o.name in ("IDF039", "IDF040"))
         return 83 + 16 * n + 16 * ncoef
     return None
+
+
+# ------------------------------------------------------------------ pinned size forms (for lean/Rtcm/Pinned/Sizes.lean)
+# identity -> [(counter path, bits per iteration)]; "" = fixed part
+
+def pinned_forms():
+    f = {}
+    for k, n in {"1005": 152, "1006": 168, "1014": 117, "1019": 488, "1020": 360, "1023": 578, "1032": 156,
+                 "1041": 482, "1042": 511, "1044": 485, "1045": 496, "1046": 504}.items():
+        f[k] = [("", n)]
+    for k, (h, p, c) in {"1001": (64, 58, "DF006"), "1002": (64, 74, "DF006"), "1003": (64, 101, "DF006"), "1004": (64, 125, "DF006"),
+                         "1009": (61, 64, "DF035"), "1010": (61, 79, "DF035"), "1011": (61, 107, "DF035"), "1012": (61, 130, "DF035"),
+                         "1013": (70, 29, "DF053"), "1015": (76, 28, "DF067"), "1016": (76, 36, "DF067"), "1017": (76, 53, "DF067"),
+                         "1007": (40, 8, "DF029"), "1029": (72, 8, "DF139"), "1030": (56, 49, "DF006"), "1031": (53, 49, "DF035"),
+                         "1034": (49, 66, "DF006"), "1035": (46, 66, "DF035"),
+                         "1037": (73, 28, "DF234"), "1038": (73, 36, "DF234"), "1039": (73, 53, "DF234"),
+                         "1057": (68, 135, "DF387"), "1058": (67, 76, "DF387"), "1060": (68, 205, "DF387"), "1061": (67, 12, "DF387"),
+                         "1062": (67, 28, "DF387"), "1063": (65, 134, "DF387"), "1064": (64, 75, "DF387"), "1066": (65, 204, "DF387"),
+                         "1067": (64, 11, "DF387"), "1068": (64, 27, "DF387")}.items():
+        f[k] = [("", h), (c, p)]
+    f["1008"] = [("", 48), ("DF029", 8), ("DF032", 8)]
+    f["1021"] = [("", 412), ("DF143", 8), ("DF145", 8)]
+    f["1033"] = [("", 72), ("DF029", 8), ("DF032", 8), ("DF227", 8), ("DF229", 8), ("DF231", 8)]
+    f["1059"] = [("", 67), ("DF387", 11), ("DF387/DF379+1", 19)]
+    f["1065"] = [("", 64), ("DF387", 10), ("DF387/DF379+1", 19)]
+    f["1230"] = [("", 32)] + [("?DF422_%d=1" % i, 16) for i in range(1, 5)]
+    for c in range(7):
+        for lvl in range(1, 8):
+            f[str(1070 + 10 * c + lvl)] = [("", 169), ("NSat", MSM_SAT[lvl]), ("NCell", MSM_SIG[lvl])]
+    for c in range(1, 7):
+        for lvl, (h, p, q) in IGS.items():
+            f["4076_%03d" % (20 * c + lvl)] = [("", h), ("IDF010", p)] + ([("IDF010/IDF023+1", q)] if q else [])
+    f["4076_201"] = [("", 83), ("IDF035", 16), ("IDF035/_NHarmCoeffC", 16), ("IDF035/_NHarmCoeffS", 16)]
+    return f
+
+
+def write_lean(path):
+    forms = pinned_forms()
+
+    def lab(s):
+        return "[" + ", ".join(str(ord(c)) for c in s) + "]"
+    out = ["-- Hand-pinned message length formulas (RTCM 10403.3, IGS SSR v1.00); written out by harness/pinned.py write_lean.",
+           "-- identity ↦ bits per iteration of every repeat-counter path (\"\" = fixed part).",
+           "import Rtcm.Model.Basic", "namespace Rtcm.Pinned", "open Rtcm", "",
+           "def sizes : List (Ident × List (Label × Nat)) := ["]
+    rows = []
+    for k in sorted(forms):
+        num, sub = (int(k), "none") if "_" not in k else (4076, "(some %d)" % int(k[5:]))
+        rows.append("  (⟨%d, %s⟩, [%s]) /- %s: %s -/" % (num, sub, ", ".join("(%s, %d)" % (lab(p), n) for p, n in forms[k]), k,
+                                                      " + ".join(("%d" % n if not p else "%d·%s" % (n, p)) for p, n in forms[k])))
+    out.append(",\n".join(rows))
+    out += ["]", "", "/-- RINEX observation codes per MSM signal id (RTCM 10403.3 tables 3.5-91 …) -/",
+            "def rinex : List (Nat × List (Nat × Label)) := ["]
+    out.append(",\n".join("  (%d, [%s])" % (k, ", ".join("(%d, %s)" % (i, lab(c)) for i, c in sorted(v.items()))) for k, v in sorted(RINEX.items())))
+    out += ["]", "", "end Rtcm.Pinned", ""]
+    open(path, "w").write("\n".join(out))
+
+
+if __name__ == "__main__":
+    import sys
+    write_lean(sys.argv[1])
